@@ -1,6 +1,7 @@
 package main
 
 import (
+	"runtime/pprof"
 	"flag"
 	"fmt"
 	"os"
@@ -47,7 +48,13 @@ func main() {
 	verbose := flag.Bool("v", false, "verbose")
 	dump := flag.String("dump", "", "write failing queries into this directory")
 	ssadump := flag.String("ssa", "", "print SSA of the named function and exit")
+	cpuprof := flag.String("cpuprofile", "", "write CPU profile")
 	flag.Parse()
+	if *cpuprof != "" {
+		f, _ := os.Create(*cpuprof)
+		pprof.StartCPUProfile(f)
+		defer pprof.StopCPUProfile()
+	}
 	p, err := govc.Load(*dir, *spec)
 	if err != nil {
 		fmt.Fprintln(os.Stderr, "load:", err)
@@ -108,6 +115,9 @@ func main() {
 				bad++
 			}
 			fmt.Printf("   %s %-10s %6dms q=%d %s  (%s) %s\n", mark, r.Status, r.Ms, r.Queries, r.ID, r.Pos, r.Solver)
+			if r.Status != "discharged" && *verbose {
+				fmt.Printf("        %s\n", r.Detail)
+			}
 			if r.Status != "discharged" && *dump != "" {
 				os.MkdirAll(*dump, 0o755)
 				govc.DumpFailed(r, *dump)
@@ -116,6 +126,7 @@ func main() {
 	}
 	if bad > 0 {
 		govc.Cleanup()
+		pprof.StopCPUProfile()
 		os.Exit(1)
 	}
 }
